@@ -497,7 +497,8 @@ impl Ctx<'_> {
 fn replay(args: &Args) {
     let cases = read_ndjson(args.req("in"));
     let mut rep = Report::new(args.get("prop").unwrap_or("C07"), args.req("out"));
-    for v in &cases {
+    for v in cases {
+        let v = &v;
         if get_str(v, "op") != "cont" {
             continue;
         }
